@@ -49,6 +49,9 @@ RESP = {
     "304": b"HTTP/1.1 304 Not Modified\r\nX-Id: %s\r\nContent-Length: 4\r\n\r\n",
     "headcl": b"HTTP/1.1 200 OK\r\nContent-Length: 4\r\nX-Id: %s\r\n\r\n",
     "close": b"HTTP/1.1 200 OK\r\nContent-Length: 4\r\nConnection: close\r\nX-Id: %s\r\n\r\nbody",
+    # a misbehaving upstream: a complete response followed by surplus bytes that look like another response
+    "surplus": b"HTTP/1.1 200 OK\r\nContent-Length: 4\r\nX-Id: %s\r\n\r\nbodyHTTP/1.1 200 OK\r\nContent-Length: 5\r\nX-Id: stale\r\n\r\nstale",
+    "surplus-junk": b"HTTP/1.1 200 OK\r\nContent-Length: 4\r\nX-Id: %s\r\n\r\nbody\r\n\r\njunk",
 }
 
 # (name, [(request kind, response kind)...], stream policy)
@@ -69,6 +72,12 @@ BASES = [
     ("pipe3", [("get", "cl"), ("head", "headcl"), ("get", "ch")], None),
     ("pipe2-hosts", [("get", "cl"), ("get_b", "cl")], None),
     ("pipe2-close", [("get", "close"), ("get", "cl")], None),
+    # sequential keep-alive (request k+1 is only sent after response k has been received): with surplus
+    # upstream bytes a *pipelined* follower would make the outcome depend on whether the surplus reaches the
+    # proxy before or after it forwarded the follower, which no proxy can observe - so these are not pipelined.
+    ("seq2", [("get", "cl"), ("post_cl", "ch")], None),
+    ("seq2-surplus", [("get", "surplus"), ("get", "cl")], None),
+    ("seq3-surplus-junk", [("get", "cl"), ("get", "surplus-junk"), ("get", "cl")], None),
     ("stream-req", [("post_ch", "cl")], "req"),
     ("stream-req-cl", [("post_cl", "cl"), ("get", "cl")], "req"),
     ("stream-resp", [("get", "ch")], "resp"),
@@ -118,7 +127,10 @@ class Exec:
         choices, widths = [], []
         try:
             w.start()
-            csegs = split(self.cs, "all" == self.ccuts and range(1, len(self.cs)) or self.ccuts)
+            ccuts = "all" == self.ccuts and range(1, len(self.cs)) or self.ccuts
+            if name.startswith("seq"):
+                ccuts = sorted(set(ccuts) | set(_message_cuts(self.base)))  # a segment never spans two requests
+            csegs = split(self.cs, ccuts)
             # response k becomes available for delivery once request k has fully arrived upstream
             pending = []  # [(end, [segments])] in release order
             released = 0
@@ -140,7 +152,10 @@ class Exec:
                             released += 1
                     per_end_seen[id(e)] = len(msgs)
                 enabled = []
-                if csegs:
+                # (sequential bases: the next request is also held back while released upstream bytes are still in
+                # flight - whether surplus bytes overtake the next request is a network race, not a segmentation)
+                if csegs and (not name.startswith("seq") or (not any(segs or eof for _e, segs, eof in pending)
+                                                            and self._client_may_send(w, len(self.cs) - sum(map(len, csegs)), pairs))):
                     enabled.append(("c",))
                 for i, (e, segs, eof) in enumerate(pending):
                     if segs or eof:
@@ -182,6 +197,20 @@ class Exec:
             return out
         self.judge(out, prefix, choices, t)
         return choices, widths, None
+
+    def _client_may_send(self, w, offset, pairs):
+        """sequential clients: bytes of request k are only sent once k final responses have been received"""
+        pos, k = 0, 0
+        for i, (r, _) in enumerate(pairs):
+            pos += len(REQ[r] % (b"r%d" % i))
+            if offset < pos:
+                k = i
+                break
+        else:
+            k = len(pairs)
+        msgs, _ = http1ref.parse_responses(w.client.w.data, _methods([p[0] for p in pairs]), eof=False)
+        done = sum(1 for m in msgs if not m["start"][1].startswith(b"1"))
+        return done >= k
 
     def judge(self, out, prefix, choices, t: Tally):
         base_out = baseline(self.base)
